@@ -458,6 +458,30 @@ func RunC19Classes(c *core.Ctx, idx int) {
 			return
 		}
 	}
+	// an instance names the same one class as the accessor does
+	{
+		type fresh [11]uint16
+		n := cdc.Notation().Make()
+		pairs := []struct {
+			name     string
+			inst, ac any
+		}{
+			{"Array", col.Array[fresh](n).Make(1).GetClass(), col.Array[fresh](n)},
+			{"List", col.List[fresh](n).Make().GetClass(), col.List[fresh](n)},
+			{"Set", col.Set[fresh](n).Make().GetClass(), col.Set[fresh](n)},
+			{"Stack", col.Stack[fresh](n).Make().GetClass(), col.Stack[fresh](n)},
+			{"Queue", col.Queue[fresh](n).Make().GetClass(), col.Queue[fresh](n)},
+			{"Catalog", col.Catalog[fresh, int](n).Make().GetClass(), col.Catalog[fresh, int](n)},
+			{"Map", col.Map[fresh, int](n).Make().GetClass(), col.Map[fresh, int](n)},
+		}
+		for _, p := range pairs {
+			if p.inst != p.ac {
+				c.Violation("classes/not-the-one-class", fmt.Sprintf("GetClass() of a %s and the accessor %s[T](notation) name different classes", p.name, p.name), map[string]any{"accessor": p.name})
+				return
+			}
+		}
+		c.Cover("classes.getclass-agrees-with-accessor")
+	}
 	c.CoverN("classes.accessors-probed", len(ps))
 	if idx == 0 {
 		c.Cover("classes.first-use-in-this-process")
